@@ -1104,6 +1104,29 @@ func callBuiltin(caller *frame, callpos token.Pos, fn *ssa.Builtin, args []value
 
 	case "ssa:deferstack":
 		return &caller.defers
+
+	case "SliceData": // unsafe.SliceData
+		sl := args[0].([]value)
+		if cap(sl) == 0 {
+			return (*value)(nil)
+		}
+		return &sl[:1][0]
+
+	case "String": // unsafe.String(ptr *byte, len)
+		ptr := args[0].(*value)
+		n := int(asInt64(args[1]))
+		if n == 0 {
+			return ""
+		}
+		vs := unsafe.Slice(ptr, n)
+		bs := make([]byte, n)
+		for i, v := range vs {
+			bs[i] = v.(uint8)
+		}
+		return string(bs)
+
+	case "StringData": // unsafe.StringData
+		panic("unsupported: unsafe.StringData")
 	}
 
 	panic("unknown built-in: " + fn.Name())
